@@ -33,9 +33,16 @@ def one(ctx, pts, cfg, family):
         case['points_file_note'] = 'full trace from /repo/traces (see family)'
     site = f"pipeline[{cfg['simplifier']},{cfg['detector']},{cfg['linkage']},{cfg['mode']}]"
     d = ctx.get_driver()
+    if 'int_dtype' not in cfg:
+        cfg['int_dtype'] = bool(gen.int_ok(pts) and ctx.rng.random() < 0.35)
+    isint = bool(cfg['int_dtype'])
+    # an integral curve is also run through the REAL pipeline as an int64 array (raw counts); oracles / references keep the float64 copy
+    pin = pts.astype(np.int64) if isint else pts
+    if isint:
+        ctx.tag('input:int64-dtype')
     # ---- stage 1: simplify
     try:
-        red, rem, _ = rdpfam.real_call(cfg['simplifier'], pts, cfg['scfg'])
+        red, rem, _ = rdpfam.real_call(cfg['simplifier'], pts, dict(cfg['scfg'], int_dtype=isint))
     except core.LoopBudgetExceeded as e:
         ctx.fail('predicate', 'completes(simplifier)', site, case, str(e)); return
     except Exception as e:
@@ -43,11 +50,12 @@ def one(ctx, pts, cfg, family):
     if rdpfam.wf_failures(n, red, rem):
         ctx.fail('predicate', 'simplifier-well-formed', site, case, dict(reduced=red[:20])); return
     pr = pts[red]
+    pri = pin[red]
     m = len(red)
     # ---- stage 2: multi-knee on the reduced curve
     t2 = detfam.MIN_T2[cfg['detector']] + cfg['t2x']
     try:
-        out, _ = detfam.real_multi(cfg['detector'], pr, cfg['t1'], t2)
+        out, _ = detfam.real_multi(cfg['detector'], pr, cfg['t1'], t2, isint)
         knees = [int(v) for v in np.asarray(out).tolist()]
     except core.LoopBudgetExceeded as e:
         ctx.fail('predicate', 'completes(multi_knee)', site, case, str(e)); return
@@ -68,12 +76,12 @@ def one(ctx, pts, cfg, family):
     ka = np.array(knees, dtype=int)
     # ---- stages 3-5: filters
     try:
-        w = [int(v) for v in np.asarray(pp.filter_worst_knees(pr, ka)).tolist()]
-        c = [int(v) for v in np.asarray(pp.filter_corner_knees(pr, np.array(w, dtype=int), t=cfg['tc'])).tolist()]
+        w = [int(v) for v in np.asarray(pp.filter_worst_knees(pri, ka)).tolist()]
+        c = [int(v) for v in np.asarray(pp.filter_corner_knees(pri, np.array(w, dtype=int), t=cfg['tc'])).tolist()]
         if cfg['mode'] == 'corners':
-            k = [int(v) for v in np.asarray(pp.filter_clusters_corners(pr, np.array(c, dtype=int), c12.link_fn(cfg['linkage']), cfg['tl'])).tolist()]
+            k = [int(v) for v in np.asarray(pp.filter_clusters_corners(pri, np.array(c, dtype=int), c12.link_fn(cfg['linkage']), cfg['tl'])).tolist()]
         else:
-            k = [int(v) for v in np.asarray(pp.filter_clusters(pr, np.array(c, dtype=int), c12.link_fn(cfg['linkage']), cfg['tl'], getattr(kr.ClusterRanking, cfg['mode']))).tolist()]
+            k = [int(v) for v in np.asarray(pp.filter_clusters(pri, np.array(c, dtype=int), c12.link_fn(cfg['linkage']), cfg['tl'], getattr(kr.ClusterRanking, cfg['mode']))).tolist()]
         o = [int(v) for v in np.asarray(rdp.mapping(np.array(k, dtype=int), np.array(red), np.array(rem))).tolist()] if len(k) else []
         if len(k):
             # the same final stage with the documented `sorted=False` option (any row order of the removed table)
@@ -84,7 +92,7 @@ def one(ctx, pts, cfg, family):
                 ctx.fail('predicate', 'mapping(sorted=False, shuffled removed table) equals mapping(sorted=True)', site, case, dict(sorted_true=o, sorted_false=o_uns, row_order=perm)); return
         ev = None
         if cfg.get('final') == 'even' and np.ptp(pts[:, 1]) > 0:
-            ev = [int(v) for v in np.asarray(pp.add_points_even(pts, np.array(red), np.array(k, dtype=int), np.array(rem), cfg['tx'], cfg['ty'], bool(cfg['extremes']))).tolist()]
+            ev = [int(v) for v in np.asarray(pp.add_points_even(pin, np.array(red), np.array(k, dtype=int), np.array(rem), cfg['tx'], cfg['ty'], bool(cfg['extremes']))).tolist()]
     except Exception as e:
         ctx.fail('predicate', 'completes(filters/mapping)', site, case, dict(error=repr(e)[:200], knees=knees)); return
     stages = dict(knees=knees, worst=w, corner=c, cluster=k, mapped=o)
@@ -336,6 +344,11 @@ def run(ctx):
             if not vt:
                 pts, vt = gen.magnitude(rng, pts, 0.12, ('xytiny30', 'ytiny30', 'xoff30', 'yoff30', 'xyhuge30'))
                 fam += vt
+            if not vt and rng.random() < 0.12 and n >= 8:
+                # miss COUNTS instead of ratios: integral heights (half of the time byte-count sized), run as int64 arrays part of the time
+                q = gen.bytecount_of(pts) if rng.random() < 0.5 else np.column_stack([pts[:, 0], np.floor(pts[:, 1] * 256)])
+                if np.ptp(q[:, 1]) > 0 and np.all(np.diff(q[:, 0]) > 0):
+                    pts, fam = q, fam + '@integer'
         elif u < 0.8:
             pts, fam = gen.float_curve(rng, n)
         else:
